@@ -160,9 +160,15 @@ func vpMessage(c vpCfg, call vpCall) (*ProducerMessage, int64) {
 	switch call.Key.K {
 	case "nil":
 		return m, 0
-	case "empty":
+	case "empty": // the three spellings of a key that is not nil but has no bytes
 		kb = []byte{}
 		m.Key = ByteEncoder(kb)
+	case "empty_s":
+		kb = []byte{}
+		m.Key = StringEncoder("")
+	case "empty_n":
+		kb = []byte{}
+		m.Key = ByteEncoder(nil)
 	case "h":
 		kb = make([]byte, 4)
 		binary.BigEndian.PutUint32(kb, uint32(int32(call.Key.H)))
@@ -176,7 +182,7 @@ func vpMessage(c vpCfg, call vpCall) (*ProducerMessage, int64) {
 		h.Write(kb)
 		return m, int64(int32(h.Sum32()))
 	}
-	if call.Key.K == "empty" {
+	if strings.HasPrefix(call.Key.K, "empty") {
 		return m, -1
 	}
 	return m, call.Key.H
@@ -211,13 +217,27 @@ func vpCallSafely(p Partitioner, m *ProducerMessage, n int32) (int32, string) {
 	}
 }
 
+// vpRequires asks the instance what it tells the producer about this message: MessageRequiresConsistency
+// when it is a DynamicConsistencyPartitioner, RequiresConsistency otherwise. Returns "true"/"false" or the panic.
+func vpRequires(p Partitioner, m *ProducerMessage) (res string) {
+	defer func() {
+		if r := recover(); r != nil {
+			res = fmt.Sprintf("panic: %v", r)
+		}
+	}()
+	if dp, ok := p.(DynamicConsistencyPartitioner); ok {
+		return strconv.FormatBool(dp.MessageRequiresConsistency(m))
+	}
+	return strconv.FormatBool(p.RequiresConsistency())
+}
+
 func vpResetFields(c vpCfg) kv {
 	return kv{"fam": "part", "ctor": c.Ctor, "abs": c.Abs, "hashfn": c.Hashfn, "fb": c.Fb}
 }
 
-func vpCallFields(call vpCall, h int64, ret int32, errs string, sub bool) kv {
+func vpCallFields(call vpCall, h int64, ret int32, errs string, sub bool, mrc string) kv {
 	return kv{"kk": call.Key.K, "h": h, "name": call.Key.Name, "part": call.Part, "n": call.N,
-		"ret": ret, "err": errs, "xk": call.Xk, "xv": call.Xv, "sub": sub, "inst": 0, "ovl": false, "fact": -1}
+		"ret": ret, "err": errs, "xk": call.Xk, "xv": call.Xv, "sub": sub, "inst": 0, "ovl": false, "fact": -1, "mrc": mrc}
 }
 
 func vpNeedsSubprocess(c vpCase) bool {
@@ -480,6 +500,7 @@ func vpReplayPair(c vpPairCase, emit func(f kv)) {
 		call vpCall
 		h    int64
 		ovl  bool
+		mrc  string
 	}
 	var pend [2]*pending
 	for _, st := range c.Steps {
@@ -493,7 +514,7 @@ func vpReplayPair(c vpPairCase, emit func(f kv)) {
 			ctl.mu.Lock()
 			ctl.gates[string(kb)] = g
 			ctl.mu.Unlock()
-			pd := &pending{gate: g, res: make(chan vpPairRes, 1), call: call, h: h, ovl: pend[1-i] != nil}
+			pd := &pending{gate: g, res: make(chan vpPairRes, 1), call: call, h: h, ovl: pend[1-i] != nil, mrc: vpRequires(insts[i], m)}
 			if pend[1-i] != nil {
 				pend[1-i].ovl = true
 			}
@@ -531,7 +552,7 @@ func vpReplayPair(c vpPairCase, emit func(f kv)) {
 			case <-time.After(10 * time.Second):
 				r = vpPairRes{-1, "hang: Partition did not return within 10s"}
 			}
-			f := vpCallFields(pd.call, pd.h, r.ret, r.err, false)
+			f := vpCallFields(pd.call, pd.h, r.ret, r.err, false, pd.mrc)
 			f["inst"] = i
 			f["ovl"] = pd.ovl
 			ctl.mu.Lock()
@@ -635,8 +656,9 @@ func TestVerifPartitioner(t *testing.T) {
 		p := vpBuild(c.Cfg)
 		for _, call := range c.Calls {
 			m, h := vpMessage(c.Cfg, call)
+			mrc := vpRequires(p, m)
 			ret, errs := vpCallSafely(p, m, call.N)
-			f := vpCallFields(call, h, ret, errs, false)
+			f := vpCallFields(call, h, ret, errs, false, mrc)
 			rec.Ev("call", f)
 			ncalls++
 			distinct[fmt.Sprintf("%v/%s/%d/%s/%d/%d", c.Cfg, call.Key.K, h, call.Key.Name, call.N, call.Part)] = true
@@ -687,11 +709,13 @@ func TestVerifPartitioner(t *testing.T) {
 			ninst++
 			nsub++
 			byCtor[c.Cfg.Ctor]++
+			probe := vpBuild(c.Cfg) // MessageRequiresConsistency is asked of an instance of the same constructor here
 			for k, r := range rs {
 				if k >= len(c.Calls) {
 					break
 				}
-				f := vpCallFields(c.Calls[k], r.h, r.ret, r.err, true)
+				pm, _ := vpMessage(c.Cfg, c.Calls[k])
+				f := vpCallFields(c.Calls[k], r.h, r.ret, r.err, true, vpRequires(probe, pm))
 				rec.Ev("call", f)
 				ncalls++
 				distinct[fmt.Sprintf("%v/%s/%d/%s/%d/%d", c.Cfg, c.Calls[k].Key.K, r.h, c.Calls[k].Key.Name, c.Calls[k].N, c.Calls[k].Part)] = true
@@ -717,6 +741,7 @@ type vprMsg struct {
 	Part    int32  `json:"part"`
 	Sc      string `json:"sc"`
 	Want    int32  `json:"want"`
+	Ek      string `json:"ek"` // "-" or the spelling of a key without bytes: b / s / n
 	Xn      int    `json:"xn"`
 	Xout    string `json:"xout"`
 	Xtarget int    `json:"xtarget"`
@@ -1033,9 +1058,22 @@ func vprRunBatch(t *testing.T, scens []*vprScen, panics *vprQuiet) string {
 				pm := &ProducerMessage{Topic: s.topic, Partition: m.Part, Value: StringEncoder(strconv.Itoa(id)),
 					Metadata: &vprMeta{scen: s, id: id, sc: m.Sc}}
 				if m.Keyed {
-					pm.Key = vprKeyFor(s.c.Pk, s.c.Np, m.Want, si*8+k%8)
+					switch m.Ek {
+					case "b":
+						pm.Key = ByteEncoder([]byte{})
+					case "s":
+						pm.Key = StringEncoder("")
+					case "n":
+						pm.Key = ByteEncoder(nil)
+					default:
+						pm.Key = vprKeyFor(s.c.Pk, s.c.Np, m.Want, si*8+k%8)
+					}
 				}
-				s.ev("submit", kv{"id": id, "keyed": m.Keyed, "part": m.Part, "sc": m.Sc, "xout": m.Xout, "xtarget": m.Xtarget})
+				ek := m.Ek
+				if ek == "" {
+					ek = "-"
+				}
+				s.ev("submit", kv{"id": id, "keyed": pm.Key != nil, "ek": ek, "part": m.Part, "sc": m.Sc, "xout": m.Xout, "xtarget": m.Xtarget})
 				select {
 				case producer.Input() <- pm:
 					total++
